@@ -4,6 +4,7 @@ off the current AST, and generic site obligations over the rule modules.
 Each generator takes the RunCtx and adds obligations to ctx.col.
 """
 import ast
+import os
 import re
 
 from .models import rational_wrapped
@@ -24,12 +25,12 @@ def own_walk(fn_node):
             todo.append(c)
 
 
-def scan(ctx, props, where, anchor, desc, ok, detail=None, shape=False):
+def scan(ctx, props, where, anchor, desc, ok, detail=None, shape=False, meta=None):
     """a decidable check on the AST.  shape=True marks a *recognition of one way of writing it*: when the source no
     longer has that shape the code may still be right (a rename, an equivalent rewrite), so the obligation is then
     undecided - the bounded stand-in decides - and never a violation.  Structural analyses (writer sets, name sets,
     definite assignment, imports) are refutable."""
-    ob = ctx.col.add_done('SCAN', props, where, anchor, desc, bool(ok), detail=detail)
+    ob = ctx.col.add_done('SCAN', props, where, anchor, desc, bool(ok), detail=detail, meta=meta)
     if shape and not ok:
         ob.status = 'unknown'
         ob.detail = 'the source no longer has the recognised shape (%s)' % (detail or 'no match')
@@ -832,6 +833,78 @@ def gen_c08_scans(ctx):
 
 
 # --------------------------------------------------------------------------------------------- C16 definite assignment, raise sites
+ARRAY_CAPACITY = {'b': 127, 'B': 255, 'h': 32767, 'H': 65535, 'i': 32767, 'I': 65535, 'l': 2**31 - 1, 'L': 2**32 - 1,
+                  'q': 2**63 - 1, 'Q': 2**64 - 1}     # what the C standard guarantees for each typecode
+
+
+def array_capacity(fn):
+    """every `array.array(<typecode>, ...)` in fn: for each nCand >= 1 for which the enclosing tests on profile.nCand
+    let the call happen, the typecode chosen can hold nCand.  The typecode expression and those tests may mention only
+    profile.nCand and integer literals; they are evaluated for nCand at and around every threshold (and far beyond the
+    largest), which is exhaustive for such expressions."""
+    if fn is None:
+        return False, 'function not found'
+    parents = {}
+    for n in ast.walk(fn.node):
+        for c in ast.iter_child_nodes(n):
+            parents[id(c)] = n
+    calls = [n for n in ast.walk(fn.node) if isinstance(n, ast.Call) and norm_src(n.func) == 'array.array']
+
+    def only_ncand(e):
+        for n in ast.walk(e):
+            if isinstance(n, ast.Name) and n.id != 'profile':
+                return False
+            if isinstance(n, ast.Attribute) and not (isinstance(n.value, ast.Name) and n.value.id == 'profile' and n.attr == 'nCand'):
+                return False
+            if isinstance(n, (ast.Call, ast.Subscript, ast.Lambda)):
+                return False
+        return True
+    problems = []
+    for call in calls:
+        if not call.args or not only_ncand(call.args[0]):
+            problems.append('line %d: typecode expression is not a function of profile.nCand alone' % call.lineno)
+            continue
+        guards = []
+        cur = call
+        while id(cur) in parents:
+            par = parents[id(cur)]
+            if isinstance(par, ast.If) and only_ncand(par.test):
+                inbody = any(any(cur is y for y in ast.walk(x)) for x in par.body)
+                guards.append((par.test, inbody))
+            if isinstance(par, ast.IfExp) and only_ncand(par.test) and cur is not par.test:
+                guards.append((par.test, cur is par.body))
+            cur = par
+        consts = {0, 1}
+        for e in [call.args[0]] + [g for g, _ in guards]:
+            for n in ast.walk(e):
+                if isinstance(n, ast.Constant) and isinstance(n.value, int) and not isinstance(n.value, bool):
+                    consts.add(n.value)
+                if isinstance(n, ast.BinOp) and isinstance(n.op, ast.Pow):
+                    try:
+                        consts.add(int(eval(compile(ast.Expression(n), '<c>', 'eval'), {'__builtins__': {}})))
+                    except Exception:
+                        pass
+        pts = set()
+        for c in consts:
+            pts |= {c - 1, c, c + 1}
+        pts |= {max(consts) * 4 + 7, 2**80}
+        for n in sorted(x for x in pts if x >= 1):
+            env = {'profile': type('P', (), {'nCand': n})(), '__builtins__': {}}
+            try:
+                live = all(bool(eval(compile(ast.Expression(g), '<g>', 'eval'), env)) == pol for g, pol in guards)
+                if not live:
+                    continue
+                tc = eval(compile(ast.Expression(call.args[0]), '<t>', 'eval'), env)
+            except Exception as e:
+                problems.append('line %d: cannot evaluate for nCand=%d: %s' % (call.lineno, n, e))
+                break
+            cap = ARRAY_CAPACITY.get(tc)
+            if cap is None or cap < n:
+                problems.append("line %d: nCand=%d stores ids up to %d in typecode %r (guaranteed capacity %s)" % (call.lineno, n, n, tc, cap))
+                break
+    return not problems, '; '.join(problems) or '%d array.array call(s) analysed' % len(calls)
+
+
 def gen_c16(ctx):
     from .defassign import check_function
     repo = ctx.repo
@@ -880,12 +953,51 @@ def gen_c16(ctx):
     # the withdrawn marker is range-checked, the ranking array can hold every candidate id
     f2 = repo.resolve('droop.profile.ElectionProfile.BallotLine.__init__')
     src2 = ast.unparse(f2.node) if f2 else ''
+    ok, detail = array_capacity(f2)
+    meta = None
+    m = re.search(r'nCand=(\d+)', detail or '')
+    if not ok and m:
+        # a ballot file with that many candidates and one ballot for the last of them (the id is pushed beyond 64 bits,
+        # where every platform's widest typecode overflows): must be a profile error, never OverflowError
+        n = max(int(m.group(1)), 2**64)
+        meta = {'family': 'profile-text', 'input': '%d 1 1 %d 0 0' % (n, n)}
     scan(ctx, P + ['C15'], 'droop.profile.ElectionProfile.BallotLine.__init__', 'array-typecode',
-         "the ranking array's typecode is chosen so that the largest candidate id fits ('B' below 256, 'H' below 65536)",
-         "'B' if profile.nCand < 256 else 'H' if profile.nCand < 65536 else 'L'" in src2, '', shape=True)
+         "wherever the ranking is stored in an array, the typecode's guaranteed capacity covers every candidate id 1..nCand "
+         "(decided for every nCand: the choice is piecewise constant between the integer thresholds it compares with)",
+         ok, detail, meta=meta)
     srcp = ast.unparse(fp.node) if fp else ''
     scan(ctx, P + ['C15'], 'droop.profile.ElectionProfile._bltParse', 'withdrawn-range', 'a -n withdrawn marker beyond the candidate count is rejected',
          'if wd > self.nCand:' in srcp and 'bad withdrawn candidate ID' in srcp, '', shape=True)
+
+
+# --------------------------------------------------------------------------------------------- Lean lemmas behind the ghost counters
+def gen_lean_card(ctx):
+    """thorough tier: the two counting lemmas the ghost counters nH nE nD nW rest on (card_update, card_pos) are
+    re-checked by Lean 4 + Mathlib from lean/CardUpdate.lean (no `sorry`, no axioms beyond Mathlib's).  In the quick tier
+    they are listed as assumptions (A-ghost) that the thorough tier checks."""
+    import subprocess
+    root = os.path.dirname(os.path.dirname(os.path.abspath(__file__)))
+    src = os.path.join(root, 'lean', 'CardUpdate.lean')
+    P = ['C01', 'C09']
+    if ctx.tier != 'thorough':
+        ctx.assumptions.append('A-ghost: status counters follow card_update / card_pos (lean/CardUpdate.lean, re-checked by Lean in the thorough tier)')
+        return
+    ok, detail = False, ''
+    try:
+        txt = open(src).read()
+        if 'sorry' in txt or 'axiom ' in txt:
+            detail = 'the Lean source contains sorry / axiom'
+        else:
+            p = subprocess.run(['lean', src], capture_output=True, text=True, timeout=1500, cwd=os.path.dirname(src))
+            out = (p.stdout or '') + (p.stderr or '')
+            ok = p.returncode == 0 and 'error' not in out
+            detail = out[-400:] if not ok else 'lean accepted card_update, card_pos'
+    except Exception as e:     # noqa
+        detail = 'lean could not be run: %s' % e
+    ob = ctx.col.add_done('LEMMA', P, 'lean/CardUpdate.lean', 'card-update', 'writing one candidate\'s status changes each status count by '
+                          '[new = n] - [old = n]; a member of a class makes its count positive (Lean 4 + Mathlib)', ok, detail=detail)
+    if not ok:
+        ob.status = 'unknown'      # a tool failure is never a violation of the property
 
 
 # --------------------------------------------------------------------------------------------- model conformance of Candidates.select
@@ -962,8 +1074,8 @@ GENERATORS = {
     'C13': [gen_c13_scans],
     'C14': [gen_c14_scans],
     'C17': [gen_c17_scans],
-    'C09': [gen_c09_scans, gen_select_conformance],
-    'C01': [gen_select_conformance],
+    'C09': [gen_c09_scans, gen_select_conformance, gen_lean_card],
+    'C01': [gen_select_conformance, gen_lean_card],
     'C18': [gen_c18_scans],
     'C16': [gen_c16],
     'C15': [gen_c16],
